@@ -130,6 +130,15 @@ def tstep (s : TState) (ws : List String) : TState × String :=
       match parseInt? k with
       | some k => run (.erase k)
       | none => bad
+    | ["erasen", k] =>
+      -- `cstl_map_erase(map, key, NULL)`: the iterator argument may be NULL; same step, nothing reported
+      match parseInt? k with
+      | some k =>
+        match mapStep s.mp (.erase k) with
+        | none => segv
+        | some (m, .erase r _ log) => fin m s!"r={r} it=- log={logS log}"
+        | some _ => bad
+      | none => bad
     | ["eraseit", k] =>
       match parseInt? k with
       | some k => run (.eraseIt k)
